@@ -22,6 +22,10 @@ pub mod sparse_vector;
 pub mod support;
 pub mod wavelet_matrix;
 
+#[cfg(simple_sds_verif)]
+#[doc(hidden)]
+pub mod verif_io;
+
 #[cfg(any(test, feature = "binaries"))]
 #[doc(hidden)]
 pub mod internal;
